@@ -24,6 +24,32 @@ pub struct Scenario {
     /// datagrams an off-path/on-path attacker injects (C06)
     #[serde(default)]
     pub attacks: Vec<Attack>,
+    /// one endpoint turns evil: it replaces the cleartext payload of one of its packets (C04)
+    #[serde(default)]
+    pub evil: Option<EvilCfg>,
+}
+
+#[derive(Clone, Copy, Debug, Hash, PartialEq, Eq, Serialize, Deserialize)]
+pub enum EvilClass {
+    BeyondStreamLimit,
+    BeyondConnLimit,
+    StreamIdBeyondLimit,
+    FinalSize,
+    WrongDirection,
+    ForbiddenInSpace,
+    BadValue,
+    /// legal but unusual: must NOT close the connection
+    Control,
+}
+
+#[derive(Clone, Copy, Debug, Hash, PartialEq, Eq, Serialize, Deserialize)]
+pub struct EvilCfg {
+    /// the client (true) or the server (false) is the evil side; the other one is the victim
+    pub client: bool,
+    pub class: EvilClass,
+    pub variant: u8,
+    /// how many eligible packets to let pass first
+    pub after: u8,
 }
 
 #[derive(Clone, Copy, Debug, Hash, PartialEq, Eq, Serialize, Deserialize)]
